@@ -27,6 +27,16 @@ instance ("A") per step.  After every step
     classes are inspected once more ("filtered-inspection"), and now and then
     a subclass is defined on the spot: it must inherit the original names.
 
+Default-method runs are also counted per "never assigned" period of each
+(instance, name) -- from construction / del / reset_traits / remove_trait to
+the next assignment -- and may not exceed one; after a reset the object the
+handlers were told the value reverts to must be the object later reads return,
+and every default container (at any depth) must be bound to the instance it
+was read from.  Two ops take a sibling's live container: `transfer` assigns
+it, `inplace` passes it as the argument of an in-place route of the target's
+own container; afterwards the two instances may not hold a common mutable
+object at any depth.
+
 Objects are keyed by serial numbers (the id -> serial map only ever holds
 objects the history keeps alive).  Wildcard-name resolution is kept out of the
 alphabet (DESIGN C10/N): only declared names and currently added instance
@@ -62,7 +72,11 @@ META = {
              "editable_traits, visible_traits), transfer (assign the container value(s) read from a sibling "
              "to the same trait(s) of the target, by setattr or trait_set(**sibling.trait_get(..)))}; 40% of "
              "the families have value-based __eq__/__hash__ (distinct instances usually compare equal); "
-             "in-place mutations reach containers nested in containers, one evaluation per inspected sibling / fresh instance / class after "
+             "in-place mutations reach containers nested in containers; del is `del o.n` or reset_traits([..]) "
+             "(preferably of stored values) followed by reads; inplace = an in-place route of the target's "
+             "own container (extend, +=, slice assignment, insert/append/setitem of an inner container, "
+             "update, |=; through the attribute or a local variable) with the sibling's live container as "
+             "argument, then an inner mutation, one evaluation per inspected sibling / fresh instance / class after "
              "every step.  distinct_nontrivial counts distinct (op, default kind of the target, value "
              "materialised before?, class of the target, static variant, recorders attached to the "
              "target, mechanisms that fired) signatures of steps."),
@@ -73,24 +87,33 @@ META = {
                   "pool_first_reads": 50000, "first_reads_static": 500000, "first_reads_otc": 400000,
                   "first_reads_observe": 400000, "later_reads": 15000, "default_method_runs": 200000,
                   "default_factory_runs": 100000, "own_mutations": 2500,
-                  "handler_events_on_target": 4000, "liveness_events": 100000, "add_trait_ops": 1500,
-                  "remove_trait_ops": 250, "registrations": 100000, "instances_created": 800,
-                  "sharing_comparisons": 800000, "query_ops": 1500,
-                  "query_ops_on_instance_with_added_traits": 300, "filtered_inspections": 40000,
-                  "subclass_probes": 6000, "inner_mutations": 600, "transfer_ops": 1000,
-                  "transfer_ops_between_equal_instances": 200, "value_equality_histories": 400},
+                  "handler_events_on_target": 4000, "liveness_events": 100000, "add_trait_ops": 1200,
+                  "remove_trait_ops": 200, "registrations": 100000, "instances_created": 800,
+                  "sharing_comparisons": 800000, "query_ops": 1200,
+                  "query_ops_on_instance_with_added_traits": 220, "filtered_inspections": 40000,
+                  "subclass_probes": 6000, "inner_mutations": 600, "transfer_ops": 900,
+                  "transfer_ops_between_equal_instances": 170, "value_equality_histories": 400, "reset_ops": 1500,
+                  "reset_ops_on_stored_value_with_notifier": 800,
+                  "reset_ops_on_stored_value_without_notifier": 130, "reset_new_identity_checks": 400,
+                  "inplace_sibling_ops": 1000, "inplace_sibling_ops_nested": 600,
+                  "inplace_sibling_ops_local_variable": 500, "period_checks": 300000},
         "thorough": {"evaluations": 2000000, "steps": 300000, "sibling_inspections": 600000,
                      "fresh_instances": 800000, "class_inspections": 800000, "first_reads": 16000000,
                      "pool_first_reads": 1000000, "first_reads_static": 10000000,
                      "first_reads_otc": 8000000, "first_reads_observe": 8000000, "later_reads": 300000,
                      "default_method_runs": 4000000, "default_factory_runs": 2000000,
                      "own_mutations": 50000, "handler_events_on_target": 80000,
-                     "liveness_events": 2000000, "add_trait_ops": 30000, "remove_trait_ops": 5000,
+                     "liveness_events": 2000000, "add_trait_ops": 24000, "remove_trait_ops": 4000,
                      "registrations": 2000000, "instances_created": 16000,
-                     "sharing_comparisons": 16000000, "query_ops": 30000,
-                     "query_ops_on_instance_with_added_traits": 6000, "filtered_inspections": 800000,
-                     "subclass_probes": 120000, "inner_mutations": 12000, "transfer_ops": 20000,
-                     "transfer_ops_between_equal_instances": 4000, "value_equality_histories": 8000},
+                     "sharing_comparisons": 16000000, "query_ops": 24000,
+                     "query_ops_on_instance_with_added_traits": 4400, "filtered_inspections": 800000,
+                     "subclass_probes": 120000, "inner_mutations": 12000, "transfer_ops": 18000,
+                     "transfer_ops_between_equal_instances": 3400, "value_equality_histories": 8000, "reset_ops": 30000,
+                     "reset_ops_on_stored_value_with_notifier": 16000,
+                     "reset_ops_on_stored_value_without_notifier": 2600,
+                     "reset_new_identity_checks": 8000, "inplace_sibling_ops": 20000,
+                     "inplace_sibling_ops_nested": 12000, "inplace_sibling_ops_local_variable": 10000,
+                     "period_checks": 6000000},
     },
     "assumptions": [
         "the declared default of every trait of the harness classes is the literal written in SPEC "
@@ -153,6 +176,8 @@ class Hub:
         self.dcalls = {}
         self.fac2 = 0
         self.excs = []
+        self.capture = False
+        self.news = []          # (mechanism, owner serial, trait name, new object) while capture is on
 
     def new_serial(self):
         s = self.next_serial
@@ -180,10 +205,14 @@ class Hub:
     def static(self, mech, obj, name, old, new):
         s = self.serial_of(obj)
         self.log.append((mech, s, s, name, brief(old), brief(new)))
+        if self.capture:
+            self.news.append((mech, s, name, new))
 
     def otc_handler(self, owner, regname):
         def handler(obj, name, old, new):
             self.log.append(("otc", owner, self.serial_of(obj), name, brief(old), brief(new)))
+            if self.capture and self.serial_of(obj) == owner:
+                self.news.append(("otc", owner, name, new))
         handler.__name__ = "otc_%s" % (regname,)
         return handler
 
@@ -192,6 +221,9 @@ class Hub:
             self.log.append(("observe", owner, self.serial_of(getattr(event, "object", None)),
                              expr, type(event).__name__,
                              brief(getattr(event, "new", getattr(event, "added", None)))))
+            if self.capture and hasattr(event, "name") and hasattr(event, "new") \
+                    and self.serial_of(event.object) == owner:
+                self.news.append(("observe", owner, event.name, event.new))
         return handler
 
     def legacy_exc(self, obj, name, old, new):
@@ -634,12 +666,92 @@ QUERIES = {
 }
 QUERY_NAMES = sorted(QUERIES)
 
+INPLACE_FLAT = ("l", "li", "dyn", "cmn", "d", "s")
+INPLACE_NESTED = ("ll", "ld", "ls", "dl")
+
+
+def inplace_routes(T, X, vt):
+    """In-place routes of container T that take container X (or a member of it) as argument."""
+    if isinstance(T, list):
+        routes = [("extend",), ("iadd",), ("slice-front",), ("slice-end",)]
+        if vt in NESTED and len(X):
+            routes += [("insert-inner",), ("append-inner",)] * 2
+            if len(T):
+                routes += [("setitem-inner",)] * 2
+        return routes
+    if isinstance(T, dict):
+        routes = [("update",), ("ior",)] * 2
+        if len(X):
+            routes.append(("setitem-inner",))
+        return routes
+    return [("update",), ("ior",)]
+
+
+def apply_route(o, n, ref, X, route, rng, p, src):
+    """Apply the route for real and return the model value after it.  ref: the container held in
+    a local variable, or None to go through the attribute each time.  p / src: plain models of the
+    target / the argument."""
+    k = route[0]
+    T = ref if ref is not None else getattr(o, n)
+    if k == "extend":
+        T.extend(X)
+        return p + src
+    if k == "iadd":
+        if ref is not None:
+            ref += X
+        else:
+            v = getattr(o, n)
+            v += X
+            setattr(o, n, v)            # what `o.n += X` does
+        return p + src
+    if k == "slice-front":
+        T[0:0] = X
+        return src + p
+    if k == "slice-end":
+        T[len(T):] = X
+        return p + src
+    if k == "insert-inner":
+        i = rng.randrange(len(X))
+        T.insert(0, X[i])
+        return [src[i]] + p
+    if k == "append-inner":
+        i = rng.randrange(len(X))
+        T.append(X[i])
+        return p + [src[i]]
+    if k == "setitem-inner":
+        if isinstance(T, list):
+            i = rng.randrange(len(X))
+            T[0] = X[i]
+            return [src[i]] + p[1:]
+        key = sorted(X)[rng.randrange(len(X))]
+        T[key] = X[key]
+        q = dict(p)
+        q[key] = src[key]
+        return q
+    if k == "update":
+        T.update(X)
+    elif k == "ior":
+        if ref is not None:
+            ref |= X
+        else:
+            v = getattr(o, n)
+            v |= X
+            setattr(o, n, v)            # what `o.n |= X` does
+    else:
+        raise AssertionError(route)
+    if isinstance(p, dict):
+        q = dict(p)
+        q.update(src)
+        return q
+    return set(p) | set(src)
+
+
 # traits that copy an assigned container into a container of the receiving instance
 TRANSFER_NAMES = ("l", "li", "d", "s", "dyn", "cmn", "ll", "ld", "dl", "ls", "un", "tup")
 
 
 class Rec:
-    __slots__ = ("serial", "obj", "cname", "cspec", "dflt", "model", "extras", "regs", "snap")
+    __slots__ = ("serial", "obj", "cname", "cspec", "dflt", "model", "extras", "regs", "snap", "base")
 
     def names(self):
         return NAMES + [n for n in self.extras if n not in BASE_SPEC]
@@ -709,6 +821,8 @@ class History:
         else:
             r.model = {n: copy.deepcopy(r.cspec[n][2]) for n in NAMES}
         r.model.update(plain)
+        # default-method run count at the start of the current unassigned period of each name
+        r.base = {n: HUB.dcalls.get((serial, n), 0) for n in plain}
         r.extras = {}
         r.regs = []
         if attach:
@@ -875,7 +989,23 @@ class History:
         ctx.ev()
         ctx.count("sibling_inspections")
 
+    def new_period(self, r, n):
+        """The unassigned period of r.n ends / a new one starts now (assign, del, reset,
+        add_trait, remove_trait): default-method runs are counted from here."""
+        r.base[n] = HUB.dcalls.get((r.serial, n), 0)
+
+    def check_period(self, r, n):
+        runs = HUB.dcalls.get((r.serial, n), 0) - r.base.get(n, 0)
+        if runs > 1:
+            self.fail("default-method/ran-more-than-once-per-unassigned-period",
+                      "_%s_default of #%d ran %d times since the value was last assigned / reset"
+                      % (n, r.serial, runs), name=n)
+        self.ctx.count("period_checks")
+
     def inspect_own(self, r):
+        for n, spec in r.dflt.items():
+            if spec[3] == "method":
+                self.check_period(r, n)
         d = r.obj.__dict__
         for n in r.names():
             cur = d.get(n, ABSENT)
@@ -931,6 +1061,17 @@ class History:
         if dd > want:
             self.fail("default-method/ran-more-than-once",
                       "#%d.%s: _%s_default ran %d times for one first read" % (r.serial, n, n, dd), name=n)
+        if want:
+            self.check_period(r, n)
+        # the default containers (at any depth) belong to this instance
+        for part in mutable_parts(v):
+            ref = getattr(part, "__dict__", None)
+            ref = ref.get("object") if isinstance(ref, dict) and isinstance(part, (list, dict, set)) else None
+            owner = ref() if callable(ref) else None
+            if owner is not None and owner is not o:
+                self.fail("default-read/container-owned-by-another-instance/%s" % family(kind),
+                          "#%d.%s: a %s of the default is bound to instance #%d"
+                          % (r.serial, n, type(part).__name__, HUB.serial_of(owner)), name=n)
         df, dg = HUB.fac2 - f0, FOO_COUNT[0] - g0
         if df > (1 if counter == "fac2" else 0) or dg > (1 if counter == "foo" else 0):
             self.fail("default-factory/ran-more-than-once/%s" % family(kind),
@@ -1182,9 +1323,9 @@ class History:
     # -- one step -----------------------------------------------------------------------
     def choose_op(self):
         rng = self.rng
-        ops = (("read", 3), ("mutate", 5), ("assign", 3), ("del", 2), ("otc", 2), ("observe", 2),
+        ops = (("read", 3), ("mutate", 5), ("assign", 3), ("del", 3), ("otc", 2), ("observe", 2),
                ("unregister", 1), ("add_trait", 2.5), ("remove_trait", 1.2), ("new", 1.5),
-               ("drop", 0.4), ("readall", 0.5), ("query", 2.5), ("transfer", 2.0))
+               ("drop", 0.4), ("readall", 0.5), ("query", 2.5), ("transfer", 2.0), ("inplace", 2.0))
         tot = sum(w for _, w in ops)
         x = rng.random() * tot
         for name, w in ops:
@@ -1317,27 +1458,76 @@ class History:
                               "#%d.%s = %s raised %r" % (A.serial, n, short(plain, 60), e), name=n)
                 A.model[n] = plain
                 self.check_counters(A, touch, epoch=not present)
+                if A.dflt[n][3] == "method":
+                    self.check_period(A, n)
+                self.new_period(A, n)
                 sigparts = (op, kind, present)
             elif op == "del":
-                n = rng.choice(names)
+                # reset to the default: `del o.n`, or reset_traits([..]); preferably names whose value
+                # is stored (read or assigned before); then read again: the default of the new
+                # unassigned period is computed at most once, it is the object the handlers were
+                # told about, and it belongs to this instance
                 self.op = op
+                stored = [x for x in names if x in o.__dict__]
+                pickfrom = stored if stored and rng.random() < 0.75 else names
+                via = "delattr" if rng.random() < 0.6 else "reset_traits"
+                ns = [rng.choice(pickfrom)] if via == "delattr" else \
+                    rng.sample(pickfrom, min(len(pickfrom), rng.randint(1, 3)))
+                n = ns[0]
                 kind = A.dflt[n][0]
                 present = n in o.__dict__
-                self.trace.append((op, A.serial, n))
-                touch = (n,)
+                was_stored = {x: x in o.__dict__ for x in ns}
+                self.trace.append((op, A.serial, via, ns))
+                touch = tuple(ns)
                 self.guard_counters(A)
+                for x in ns:
+                    self.new_period(A, x)
+                del HUB.news[:]
+                HUB.capture = True
                 try:
-                    delattr(o, n)
+                    if via == "delattr":
+                        delattr(o, n)
+                    else:
+                        left = o.reset_traits(list(ns))
+                        if left:
+                            self.fail("op-raised/reset_traits/not-reset",
+                                      "#%d.reset_traits(%r) could not reset %r" % (A.serial, ns, left))
+                except Violation:
+                    raise
                 except Exception as e:
                     self.fail("op-raised/del/%s/%s" % (family(kind), type(e).__name__),
-                              "del #%d.%s raised %r" % (A.serial, n, e), name=n)
-                A.model[n] = copy.deepcopy(A.dflt[n][2])
+                              "%s of #%d.%s raised %r" % (via, A.serial, ns, e), name=n)
+                finally:
+                    HUB.capture = False
+                told = list(HUB.news)
+                del HUB.news[:]
+                for x in ns:
+                    A.model[x] = copy.deepcopy(A.dflt[x][2])
                 self.check_counters(A, touch, epoch=True)
-                # a following read is a first read again (new epoch)
-                if rng.random() < 0.5:
-                    del HUB.log[:]
-                    self.checked_read(A, n, "read-after-del")
-                sigparts = (op, kind, present)
+                ctx.count("reset_ops")
+                notified = self.static or bool(A.regs)
+                if any(was_stored.values()) and notified:
+                    ctx.count("reset_ops_on_stored_value_with_notifier")
+                elif any(was_stored.values()):
+                    ctx.count("reset_ops_on_stored_value_without_notifier")
+                # a following read is a first read again (new period)
+                if rng.random() < 0.75:
+                    for x in ns:
+                        v = self.checked_read(A, x, "read-after-del")
+                        if A.dflt[x][1] in IMMUTABLE_TYPES:
+                            continue
+                        for mech, owner, name, new in told:
+                            if name != x or new is None or owner != A.serial:
+                                continue
+                            ctx.count("reset_new_identity_checks")
+                            if new is not v:
+                                self.fail("default-after-reset/handler-was-given-another-object/%s"
+                                          % family(A.dflt[x][0]),
+                                          "the %s handler of #%d.%s was told the value reverts to %s (a %s), "
+                                          "later reads return a different object (%s)"
+                                          % (mech, A.serial, x, brief(new), type(new).__name__, brief(v)),
+                                          name=x)
+                sigparts = (op, via, kind, present, len(ns), bool(told))
             elif op == "otc":
                 self.op = op
                 name = rng.choice(self.OTC_NAMES + tuple(x for x in A.extras if x not in BASE_SPEC))
@@ -1427,6 +1617,9 @@ class History:
                               "assigning #%d.%s to #%d raised %r" % (S.serial, ns, A.serial, e))
                 for n in ns:
                     A.model[n] = copy.deepcopy(S.model[n])
+                    if A.dflt[n][3] == "method":
+                        self.check_period(A, n)
+                    self.new_period(A, n)
                 self.check_counters(A, absent, epoch=True)
                 for n in ns:
                     mine = o.__dict__.get(n, ABSENT)
@@ -1441,6 +1634,56 @@ class History:
                 if equal:
                     ctx.count("transfer_ops_between_equal_instances")
                 sigparts = (op, kind, present, bulk, equal, S.cname == A.cname)
+            elif op == "inplace":
+                # an in-place route of A's own container that takes the sibling's LIVE container
+                # (or one of its inner containers) as the argument; the container is reached
+                # through the attribute or through a local variable
+                self.op = op
+                others = [r for r in self.pool if r is not A]
+                same = [r for r in others if r.cname == A.cname]
+                S = rng.choice(same if same and rng.random() < 0.7 else others)
+                n = rng.choice(INPLACE_NESTED if rng.random() < 0.6 else INPLACE_FLAT)
+                vt = A.dflt[n][4]
+                kind = A.dflt[n][0]
+                present = n in o.__dict__
+                self.trace.append((op, A.serial, n, "from", S.serial))
+                X = self.checked_read(S, n, "first-read")
+                T = self.checked_read(A, n, "first-read")
+                route = rng.choice(inplace_routes(T, X, vt))
+                local = rng.random() < 0.5
+                self.trace[-1] = (op, A.serial, n, "from", S.serial, route, "local" if local else "attr")
+                src = copy.deepcopy(S.model[n])
+                try:
+                    A.model[n] = apply_route(o, n, T if local else None, X, route, rng, A.model[n], src)
+                except Exception as e:
+                    self.fail("op-raised/inplace/%s/%s/%s" % (route[0], family(kind), type(e).__name__),
+                              "%s of #%d.%s with #%d.%s raised %r" % (route, A.serial, n, S.serial, n, e), name=n)
+                mine = o.__dict__.get(n, ABSENT)
+                theirs = mutable_parts(S.obj.__dict__.get(n))
+                for part in mutable_parts(mine) if mine is not ABSENT else ():
+                    ctx.count("sharing_comparisons", len(theirs))
+                    if any(part is q for q in theirs):
+                        self.fail("shared-value/after-in-place-update-from-sibling-container/%s/%s"
+                                  % (route[0], family(kind)),
+                                  "after %s on #%d.%s with #%d.%s as argument the two instances hold the "
+                                  "same %s object" % (route[0], A.serial, n, S.serial, n, type(part).__name__),
+                                  name=n, sibling=S.serial)
+                nested = n in INPLACE_NESTED
+                if nested and rng.random() < 0.6:
+                    # mutate an inner container of the target right away (S is inspected below)
+                    cur = getattr(o, n)
+                    m = pick_mutation(rng, cur, vt)
+                    self.trace.append(("mutate", A.serial, n, m))
+                    apply_real(cur, m)
+                    A.model[n] = apply_model(A.model[n], m)
+                    if m[0] == "inner":
+                        ctx.count("inner_mutations")
+                ctx.count("inplace_sibling_ops")
+                if nested:
+                    ctx.count("inplace_sibling_ops_nested")
+                if local:
+                    ctx.count("inplace_sibling_ops_local_variable")
+                sigparts = (op, kind, present, route[0], local, S.cname == A.cname)
             elif op == "query":
                 self.op = op
                 q = rng.choice(QUERY_NAMES)
@@ -1488,6 +1731,7 @@ class History:
                               "#%d.add_trait(%r) raised %r" % (A.serial, n, e), name=n)
                 A.extras[n] = spec
                 A.dflt[n] = spec
+                self.new_period(A, n)
                 if not present:
                     A.model[n] = copy.deepcopy(spec[2])
                 self.check_counters(A, (), epoch=False)
@@ -1510,6 +1754,7 @@ class History:
                         self.fail("op-raised/remove_trait/%s/%s" % (kind, type(e).__name__),
                                   "#%d.remove_trait(%r) raised %r" % (A.serial, n, e), name=n)
                     del A.extras[n]
+                    self.new_period(A, n)
                     if n in BASE_SPEC:
                         A.dflt[n] = A.cspec[n]
                         A.model[n] = copy.deepcopy(A.cspec[n][2])
@@ -1568,7 +1813,7 @@ class History:
                           % (k[1], A.serial, dd, self.op, touch), name=k[1])
             self.ctx.count("default_method_runs_in_ops")
         lim_f = 1 if ("fac2" in touch and epoch) else 0
-        lim_g = 1 if (("inst" in touch or "inst2" in touch) and epoch) else 0
+        lim_g = sum(1 for x in ("inst", "inst2") if x in touch) if epoch else 0
         if HUB.fac2 - f0 > lim_f or FOO_COUNT[0] - g0 > lim_g:
             self.fail("default-factory/ran-unexpectedly/%s" % self.op,
                       "factory ran %d times / Foo() created %d times during %s (touching %r)"
